@@ -18,22 +18,27 @@ Definition oc_eqb (a b : outcome) : bool :=
   match a, b with OAccept, OAccept | ORefuse, ORefuse | OHang, OHang => true | _, _ => false end.
 Definition oracle_of (l : list outcome) (a : N) : outcome := nth (N.to_nat a) l ORefuse.
 
+(* what the observer saw of one Dial: it returned r, or it had not returned `stuck_ms` after its timeout ran out
+   (the observer then abandons it) *)
+Inductive oxres := Ret (r : xres) | Stuck.
+
 (* one observed Dial: thread id, timeout (ms), result, elapsed (ms) *)
-Definition dobs := (N * N * xres * N)%type.
+Definition dobs := (N * N * oxres * N)%type.
 
 Definition dial_ok (oracle : list outcome) (d : dobs) : bool :=
   match d with
   | (_, to, r, el) =>
       (el <=? to + slack_ms) &&
       match r with
-      | XOk a => oc_eqb (oracle_of oracle a) OAccept
-      | XErr _ => forallb (fun o => oc_eqb o ORefuse) oracle
-      | XTimeout a => a <? N.of_nat (length oracle)
+      | Ret (XOk a) => oc_eqb (oracle_of oracle a) OAccept
+      | Ret (XErr _) => forallb (fun o => oc_eqb o ORefuse) oracle
+      | Ret (XTimeout a) => a <? N.of_nat (length oracle)
+      | Stuck => false       (* a Dial returns no later than its timeout plus slack *)
       end
   end.
 
 (* accepting = every address accepts; otherwise every address hangs and the only legitimate result is XTimeout *)
-Definition stress_dial_ok (capn to maxin : N) (accepting : bool) (rs : list (xres * N)) : bool :=
+Definition stress_dial_ok (capn to maxin : N) (accepting : bool) (rs : list (oxres * N)) : bool :=
   ((capn =? 0) || (maxin <=? capn)) &&
   forallb (fun r => (snd r <=? to + slack_ms) &&
-                    match fst r with XOk _ => accepting | XTimeout _ => true | XErr _ => false end) rs.
+                    match fst r with Ret (XOk _) => accepting | Ret (XTimeout _) => true | Ret (XErr _) => false | Stuck => false end) rs.
